@@ -51,9 +51,8 @@ def projection_case(which, d=2):
     kw = dict(A=Aw, _lambda=lamw, gamma=g, gamma_proj=g / (g + 1.), i=0, v=v, num_pos=0)
     kw['pos_bhat' if which == 'pos' else 'neg_bhat'] = bhat
     missing = [p for p in params if p not in kw]
-    ctx.require('sliced_step_has_the_expected_interface', ctx.cond(not missing), detail='unexpected free variables %s' % missing)
     if missing:
-      return
+      ctx.mismatch('sliced step: free variables the harness cannot supply: %s' % missing)
     out = step(**{k: kw[k] for k in params})
     A1, lam1, xi1 = out['A'], out['_lambda'][0], out['pos_bhat' if which == 'pos' else 'neg_bhat'][0]
     alpha = lam0 - lam1
@@ -111,9 +110,8 @@ def sweep_tail_case():
     kw = dict(A=np.eye(2), _lambda=lam.copy(), lambdaold=old.copy(), pos_vv=empty, neg_vv=empty, pos_bhat=np.zeros(0),
               neg_bhat=np.zeros(0), gamma=1.0, gamma_proj=0.5, num_pos=0, self=self_, it=0)
     missing = [p for p in params if p not in kw]
-    ctx.require('sliced_step_has_the_expected_interface', ctx.cond(not missing), detail='unexpected free variables %s' % missing)
     if missing:
-      return
+      ctx.mismatch('sliced step: free variables the harness cannot supply: %s' % missing)
     lam_in = kw['_lambda']
     out = step(**{k: kw[k] for k in params})
     diff = sum(abs(old[i] - lam[i]) for i in range(n))
